@@ -17,9 +17,13 @@ pub fn vx_fmt() -> String { unimplemented!() }
 pub struct Span { _p: () }
 #[verifier::external_body]
 pub struct Chunk { _p: () }
+/// which span of which instruction a `&Span` obtained from the chunk is
+pub uninterp spec fn span_tag(s: &Span) -> (u32, usize);
 impl Chunk {
     #[verifier::external_body]
-    pub fn get_span_at(&self, idx: u32, span_idx: usize) -> Option<&Span> { unimplemented!() }
+    pub fn get_span_at(&self, idx: u32, span_idx: usize) -> (r: Option<&Span>)
+        ensures r is Some ==> span_tag(r->Some_0) == (idx, span_idx)
+    { unimplemented!() }
 }
 
 pub uninterp spec fn is_utf8(s: Seq<u8>) -> bool;
